@@ -114,7 +114,9 @@ def build_hank(
             return Hank, None
 
     elif method == "cov_R":
-        # Correlations
+        # Correlations (in floating point: the products of integer-typed
+        # records would wrap around in the integer type)
+        Y, Yref = np.asarray(Y, dtype=float), np.asarray(Yref, dtype=float)
         Ri = np.array(
             [
                 1 / (Ndat - k) * np.dot(Y[:, : Ndat - k], Yref[:, k:].T)
